@@ -17,6 +17,10 @@ def progOf (op : String) : Option Prog :=
   | "insert_bare" => some dtInsertBare
   | "remove" => some dtRemoveGuarded
   | "flip_k2" | "flip_k3" | "flip_k2inv" | "flip_k1_insert" | "flip_k1_remove" => some editFlip
+  -- stale-handle flips are preceded by a preparatory insertion in the harness: union of both programs
+  | "flip_k1_insert_stale" | "flip_k2_stale" => some (dtInsertGuarded ;; editFlip)
+  | "insert_duplicate" => some dtInsertGuarded
+  | "remove_unknown" => some dtRemoveGuarded
   | "repair" | "repair_adv" => some repairPublic
   | _ => none
 
@@ -42,7 +46,11 @@ def runTxn (c : Case) : Res :=
       let mut bad : List String := []
       let mut dis : List String := []
       if outcome.startsWith "panic" then bad := s!"{op} panicked (failpoint {fp}): {outcome}" :: bad
-      if failed && !unchanged then
+      -- stale-handle ops: the harness compares around the flip only and marks a change explicitly
+      if outcome.endsWith ":CHANGED" then
+        bad := s!"op={op}: a flip on a stale cell key returned {outcome} but changed the triangulation" :: bad
+      let stalePrep := op == "flip_k1_insert_stale" || op == "flip_k2_stale"
+      if failed && !unchanged && !stalePrep then
         let predicted := if clean prog then "model program is clean: unchanged predicted" else
           (if (dirtyAt prog false).contains fp then "model predicts a dirty failure here" else "model program not clean")
         bad := s!"op={op} failpoint={fp} ord={c.arg "ord"}: returned {outcome} but the triangulation changed ({predicted})" :: bad
